@@ -322,7 +322,7 @@ type filterInput struct {
 	MapSeed int64      `json:"mapSeed"`
 	// Unreadable: (empty) directories that cannot be listed while the walk runs (mode 0000, walker without CAP_DAC_*)
 	Unreadable []string `json:"unreadable,omitempty"`
-	API     string     `json:"api"`
+	API        string   `json:"api"`
 	// Follow: FollowPaths of the filter; their resolution is appended to the include list (in that order)
 	Follow []string `json:"follow,omitempty"`
 }
